@@ -3,6 +3,7 @@
 package ui
 
 import (
+	"net/url"
 	"path/filepath"
 	"encoding/json"
 	"fmt"
@@ -252,6 +253,16 @@ func TestVerifC20(t *testing.T) {
 							wantSup = strings.ToLower(att["type"].(string))
 							wantE = wantSup + "/*"
 						}
+					}
+					// and the address itself is the one the attachment's JSON gives (as a parsed URL writes it), whatever has been
+					// rendered or opened before: nothing of it - credentials, query, fragment - is dropped on the way to the hook
+					rawAddr, _ := att["url"].(string)
+					if att["type"] == "Link" {
+						rawAddr, _ = att["href"].(string)
+					}
+					if pu, perr := url.Parse(rawAddr); perr == nil && rawAddr != "" && l != pu.String() {
+						c.Violation("hook:attachment-address", fmt.Sprintf("link %d of %s is the attachment %v: its address is %q, SelectLink hands out %q", k, wk.Key(unwrapped), att, pu.String(), l),
+							map[string]any{"hook": hook, "item": wk.Key(cur), "via": fmt.Sprintf("SelectLink(%d)", k), "link": ev.Trunc(l, 200)})
 					}
 					c.Count("attachment_types_checked", 1)
 					if m.Essence != wantE || m.Supertype != wantSup || m.Subtype != wantSub {
